@@ -317,7 +317,11 @@ VerifyRebuild(a, F) ==
        ELSE IF cmode[a] # "WO" THEN
             res' = "refused" /\ UNCHANGED <<ctl, env, acked, nextW, calls>>
        ELSE \E src \in RWs(cmode) :
-            IF rsnaps[a] # rsnaps[src] /\ "verifySkipsChain" \notin Bug THEN
+            \* the chains must match, and the checkpoint the rebuilt replica persisted (from an
+            \* earlier life) must be a snapshot of the source: otherwise the histories diverged
+            IF (\/ rsnaps[a] # rsnaps[src]
+                \/ (rcp[a] # "" /\ \A i \in 1..Len(rsnaps[src]) : rsnaps[src][i] # rcp[a]))
+               /\ "verifySkipsChain" \notin Bug THEN
                  res' = "refused" /\ UNCHANGED <<ctl, env, acked, nextW, calls>>
             ELSE LET cm == [cmode EXCEPT ![a] = "RW"]
                  IN /\ res' = "ok"
@@ -423,6 +427,13 @@ Mutate(kind, A, w, X) ==
                /\ rstate' = [a \in Addr |-> IF a \in X THEN "closed" ELSE rstate[a]]
                /\ rmode' = [a \in Addr |-> IF a \in X THEN "INIT" ELSE rmode[a]]
                /\ UNCHANGED <<pcAdd, rreb, rsnaps, rsnapAt>>
+
+\* I/O outside [0, volume size): refused by the controller's range check, no replica is touched
+\* (C01; for a write the read-only test comes first -- refused either way)
+OobIO(kind) ==
+    /\ Called(kind, [oob |-> TRUE])
+    /\ res' = "refused" /\ served' = "" /\ sig' = <<>>
+    /\ UNCHANGED <<ctl, env, acked, nextW, calls>>
 
 \* Read: A = armed faults, T = readers tried and failed, s = serving replica ("" = none)
 Read(A, T, s, X) ==
